@@ -70,7 +70,9 @@ func (g *Gen) genTree(dir string, depth int, big *int, thorough bool) {
 			}
 			os.WriteFile(p, g.bytes(sz), 0o644)
 		case k < 7:
-			t := []string{"a", "../b", "/etc/hostname", "nonexistent", ".", "..", "d1/x", "with space", "é"}[g.pick(9)]
+			// targets are data: they must come back verbatim, clean or not
+			t := []string{"a", "../b", "/etc/hostname", "nonexistent", ".", "..", "d1/x", "with space", "é",
+				"./a", "a/", "a//b", "x/../y", "../", "./", "/abs//x/", "a/./b", " "}[g.pick(18)]
 			os.Symlink(t, p)
 		default:
 			if depth > 0 {
